@@ -69,6 +69,7 @@ def gen_step(rng, units, prefixes, nvars):
 
 HELPERS = '''
 import json as _j, pickle as _p
+from measured import Dimension, Unit, One
 from measured.json import MeasuredJSONEncoder, MeasuredJSONDecoder
 def _try(f, dflt):
     try:
@@ -141,6 +142,27 @@ def run(tier, seed):
     if not failures:
         for u, got, want in c01_violations()[:1]:
             failures.append({"key": "history:%s" % u, "desc": "%s has dimension %s but its factors give %s" % (u, got, want), "steps": list(hist)})
+    if not failures:
+        # last phase: a new fundamental dimension is defined at run time (the documented extension point); every unit interned
+        # before must still report the product of its factors' dimensions, and so must units built afterwards
+        tail = ["Meter**3 / Second**3", "Dimension.define('c01dim%d', 'c01d%d')" % (seed, seed), "Unit.define(Dimension._by_name['c01dim%d'], 'c01unit%d', 'c01u%d')" % (seed, seed, seed),
+                "Meter**3 / Second**3 * Unit._by_name['c01unit%d']" % seed, "(Kilo*Meter)**2 / Hour", "(Meter**3 / Second**3).as_ratio()[1]"]
+        import measured as _m2
+        ns.setdefault("Dimension", _m2.Dimension)
+        ns.setdefault("Unit", _m2.Unit)
+        done = []
+        try:
+            for src in tail:
+                done.append(src)
+                eval(src, ns)
+                evals += 1
+            bad = c01_violations()
+        except Exception as e:
+            bad = [("<%s>" % src, "raised", "%s: %s" % (type(e).__name__, e))]
+        if bad:
+            u, got, want = bad[0]
+            failures.append({"key": "define-dimension:%s" % u, "desc": "after Dimension.define at run time: %s has dimension %s but its factors give %s" % (u, got, want),
+                             "steps": ["_try(lambda: %s, One)" % s_ if "define" not in s_ else "_eff(%s, One)" % s_ for s_ in done]})
     return {"evaluations": evals, "distinct": len(distinct), "failures": failures, "samples": samples,
             "rule": "random histories (<=25 steps each, one growing intern table) of * / ** root as_ratio format str mathml parse json pickle "
                     "quantity-mul convert over %d named units x %d prefixes; distinct = distinct (operation, resulting unit)" % (len(units), len(prefixes)),
